@@ -13,5 +13,5 @@ CONSTANTS
   Dev = {@DEV@}
 CONSTRAINT HW
 POSTCONDITION TraceAccepted
-INVARIANTS NoDeadlock OwnedNoGap OwnedNoStale OwnedModuloDev
+INVARIANTS @INV@
 CHECK_DEADLOCK FALSE
